@@ -28,7 +28,12 @@ def _tok(x):
 def _run(seq, size, ua):
     from localcider.sequenceParameters import SequenceParameters
     o = SequenceParameters(seq)
-    return call(o.get_reduced_alphabet_sequence, size, ua)
+    st, val = call(o.get_reduced_alphabet_sequence, size, ua)
+    if st == 'ok' and isinstance(val, (tuple, list)) and len(val) == 2 and isinstance(val[1], list):
+        keep = (val[0], list(val[1]))
+        del val[1][:]            # a caller may edit the list it was handed; no later call may notice (all cases run in one process)
+        val = keep
+    return st, val
 
 
 def _case(seq, size, ua):
